@@ -68,6 +68,8 @@ def cases(tier, seed):
                 for sig in sigs:
                     if d == 3 and sig == "t2" and tier == "quick":
                         continue
+                    if tier == "thorough" and d == 3 and len(grp) > 8 and (inner not in ("component", "typechange", "tanh") or sig not in ("sv", "pseudo")):
+                        continue  # large subgroups of B_3: three inner models x two signatures (cost grows with |G|^2)
                     out.append({"kind": "ga", "d": d, "G": gname, "inner": inner, "sig": sig, "cost": max(1, len(grp) // 4), "grp": f"ga{d}"})
     types = [(0, 0), (0, 1), (1, 0)]
     for ext in ([4, 3], [3, 3], [5, 2], [2, 4]):
